@@ -107,6 +107,9 @@ type deepCase struct {
 	// hashKeyless: the default hash partitioner and messages without a key (each goes to a partition drawn
 	// when it first passes the dispatcher, and has to stay there when it is retried)
 	hashKeyless bool
+	// metaFailAfter: that many metadata requests following the first refused batch die with their connection
+	// (one broker: the refresh the producer makes at that moment fails)
+	metaFailAfter int
 }
 
 func deepCases(prop, tier string) []directedCase {
@@ -161,6 +164,17 @@ func deepCases(prop, tier string) []directedCase {
 				for _, parts := range []int{2, 4} {
 					out = append(out, directedCase{deep: &deepCase{word: w, pauseUs: 200, parts: parts, delayMs: delay, hashKeyless: true}, retry: 4, idem: true})
 				}
+			}
+		}
+	}
+	// the metadata refresh that follows a refusal fails
+	for _, w := range [][]int{{R}, {O, R}, {R, O, R}} {
+		for _, mf := range []int{4, 8} {
+			for _, idem := range []bool{false, true} {
+				if (prop == "C05" && !idem) || (prop == "C18" && idem) {
+					continue
+				}
+				out = append(out, directedCase{deep: &deepCase{word: w, pauseUs: 300, metaFailAfter: mf}, retry: 4, idem: idem})
 			}
 		}
 	}
@@ -237,6 +251,9 @@ func directedScenario(prop string, c directedCase, rng *rand.Rand) *prodScenario
 		}
 		if c.deep.hashKeyless {
 			sc.Partitioner = "hash"
+		}
+		if c.deep.metaFailAfter > 0 {
+			sc.Brokers, sc.MetaFailAfterRefusal = 1, c.deep.metaFailAfter
 		}
 		if c.deep.twoTopics {
 			sc.Topics, sc.Parts = []string{"t", "t1"}, 11
